@@ -302,7 +302,7 @@ type Op struct {
 }
 
 type Desc struct {
-	Kind    string `json:"kind"` // "ops" | "e2e"
+	Kind    string `json:"kind"` // "ops" | "e2e" | "hist"
 	Reg0    int    `json:"reg0"` // registry size wanted at the start (the actual one is >=)
 	NScopes int    `json:"nscopes,omitempty"`
 	Ops     []Op   `json:"ops,omitempty"`
@@ -314,6 +314,9 @@ type Desc struct {
 	CA     int     `json:"ca,omitempty"`
 	CB     int     `json:"cb,omitempty"`
 	CC     int     `json:"cc,omitempty"`
+	// hist
+	CD      int    `json:"cd,omitempty"`
+	Variant string `json:"variant,omitempty"` // "gR" | "discard-gR" | "discard-f"
 }
 
 type wire struct {
@@ -522,8 +525,14 @@ type inc struct {
 
 var e2e struct {
 	mu    sync.Mutex
-	log   map[*metrics.Scope][]inc
+	phase int // which step of a history is running (0 for plain runs)
+	log   map[*metrics.Scope][]pinc
 	order []*metrics.Scope
+}
+
+type pinc struct {
+	phase int
+	inc
 }
 
 // bump is what the user functions call: increment counter c (a metric id) in
@@ -535,7 +544,7 @@ func bump(ctx context.Context, c int, n int64) {
 	if _, ok := e2e.log[scope]; !ok {
 		e2e.order = append(e2e.order, scope)
 	}
-	e2e.log[scope] = append(e2e.log[scope], inc{c, n})
+	e2e.log[scope] = append(e2e.log[scope], pinc{e2e.phase, inc{c, n}})
 	e2e.mu.Unlock()
 }
 
@@ -644,6 +653,8 @@ func session(name string) *exec.Session {
 	var s *exec.Session
 	if name == "bigmachine" {
 		s = exec.Start(exec.Bigmachine(testsystem.New()), exec.Parallelism(4))
+	} else if name == "bigmachine1" {
+		s = exec.Start(exec.Bigmachine(testsystem.New()), exec.Parallelism(1))
 	} else {
 		s = exec.Start(exec.Local, exec.Parallelism(4))
 	}
@@ -661,7 +672,7 @@ func runE2E(d Desc) (term string, reg int, observed string, okRun bool) {
 	ensureReg(need)
 	reg = regSize()
 	e2e.mu.Lock()
-	e2e.log, e2e.order = map[*metrics.Scope][]inc{}, nil
+	e2e.log, e2e.order, e2e.phase = map[*metrics.Scope][]pinc{}, nil, 0
 	e2e.mu.Unlock()
 
 	type outcome struct {
@@ -700,14 +711,7 @@ func runE2E(d Desc) (term string, reg int, observed string, okRun bool) {
 	for _, s := range e2e.order {
 		// the order in which a task meets its rows is not fixed after a shuffle
 		// (and does not matter for a sum): canonicalise
-		l := append([]inc(nil), e2e.log[s]...)
-		sort.Slice(l, func(i, j int) bool {
-			if l[i].c != l[j].c {
-				return l[i].c < l[j].c
-			}
-			return l[i].n < l[j].n
-		})
-		groups = append(groups, incsTerm(l))
+		groups = append(groups, incsTerm(sortedIncs(e2e.log[s], 0)))
 	}
 	e2e.mu.Unlock()
 	sort.Strings(groups) // task completion order is not fixed
@@ -718,6 +722,169 @@ func runE2E(d Desc) (term string, reg int, observed string, okRun bool) {
 	term = vf.App("CE2E", vf.Bool(d.Exec == "bigmachine"), vf.Nat(reg), vf.List(groups),
 		incsTerm(expected(d)), vf.ZList(oc.vals))
 	return term, reg, fmt.Sprintf("%s %d tasks", observed, len(groups)), oc.err == ""
+}
+
+// sortedIncs returns the increments logged in one phase, canonically ordered.
+func sortedIncs(pl []pinc, phase int) []inc {
+	var l []inc
+	for _, e := range pl {
+		if e.phase == phase {
+			l = append(l, e.inc)
+		}
+	}
+	sort.Slice(l, func(i, j int) bool {
+		if l[i].c != l[j].c {
+			return l[i].c < l[j].c
+		}
+		return l[i].n < l[j].n
+	})
+	return l
+}
+
+// ---------------------------------------------------------------- histories with re-runs
+
+// stage2 consumes a Result (the output of progs 0, 1 or 3: one int64 column).
+var stage2 = bigslice.Func(func(in bigslice.Slice, cd int) bigslice.Slice {
+	return bigslice.Map(in, func(ctx context.Context, x int64) int64 {
+		bump(ctx, cd, x)
+		return x + 1
+	})
+})
+
+// histProgs are the programs whose result stage2 can consume.
+var histProgs = []int{0, 1, 3}
+
+// outRows lists the rows of the result of progs[d.Prog].
+func outRows(d Desc) []int64 {
+	var out []int64
+	for _, x := range d.Rows {
+		switch d.Prog {
+		case 0:
+			out = append(out, x)
+		case 1:
+			if x%2 != 0 {
+				out = append(out, x)
+			}
+		case 3:
+			out = append(out, x, x)
+		}
+	}
+	return out
+}
+
+// runHist runs a failure-free history in which tasks may run twice:
+//
+//	gR          R := f();               r2 := g(R)   (reference: nothing is re-run)
+//	discard-gR  R := f(); R.Discard();  r2 := g(R)   (R's tasks are lost and run again)
+//	discard-f   R := f(); R.Discard();  r2 := f()    (a new invocation of f)
+//
+// and reports the counters of r2. They must be the increments of the tasks
+// r2 is made of, each task once.
+func runHist(d Desc) (term string, observed string) {
+	need := d.Reg0
+	for _, c := range []int{d.CA, d.CB, d.CC, d.CD} {
+		if c+1 > need {
+			need = c + 1
+		}
+	}
+	ensureReg(need)
+	reg := regSize()
+	e2e.mu.Lock()
+	e2e.log, e2e.order, e2e.phase = map[*metrics.Scope][]pinc{}, nil, 1
+	e2e.mu.Unlock()
+
+	type outcome struct {
+		vals []int64
+		err  string
+	}
+	done := make(chan outcome, 1)
+	go func() {
+		defer func() {
+			if r := recover(); r != nil {
+				done <- outcome{err: "panic"}
+			}
+		}()
+		ctx := context.Background()
+		name := d.Exec
+		if name == "bigmachine" {
+			// one machine, so that a task is always re-run by the worker that ran it
+			// before (which machine gets a re-run is otherwise a matter of timing)
+			name = "bigmachine1"
+		}
+		sess := session(name)
+		r1, err := sess.Run(ctx, progs[d.Prog], d.NShard, d.Rows, d.CA, d.CB, d.CC)
+		if err != nil {
+			done <- outcome{err: "error"}
+			return
+		}
+		_ = r1.Scope() // reading the first result's counters must not matter
+		if d.Variant != "gR" {
+			r1.Discard(ctx)
+		}
+		e2e.mu.Lock()
+		e2e.phase = 2
+		e2e.mu.Unlock()
+		var r2 *exec.Result
+		if d.Variant == "discard-f" {
+			r2, err = sess.Run(ctx, progs[d.Prog], d.NShard, d.Rows, d.CA, d.CB, d.CC)
+		} else {
+			r2, err = sess.Run(ctx, stage2, r1, d.CD)
+		}
+		if err != nil {
+			done <- outcome{err: "error"}
+			return
+		}
+		scope := r2.Scope()
+		vals := make([]int64, reg)
+		for m := 1; m < reg; m++ {
+			vals[m] = counter(m).Value(scope)
+		}
+		r2.Discard(ctx)
+		done <- outcome{vals: vals}
+	}()
+	var oc outcome
+	select {
+	case oc = <-done:
+	case <-time.After(120 * time.Second): // watchdog: a hang is an observation
+		oc = outcome{err: "hang"}
+	}
+	// per task scope: the increments of each of its runs. In variant discard-f the
+	// first invocation's tasks are not part of the second result.
+	e2e.mu.Lock()
+	var groups []string
+	reruns := 0
+	for _, s := range e2e.order {
+		var runs []string
+		for ph := 1; ph <= 2; ph++ {
+			if d.Variant == "discard-f" && ph == 1 {
+				continue
+			}
+			if l := sortedIncs(e2e.log[s], ph); len(l) > 0 {
+				runs = append(runs, incsTerm(l))
+			}
+		}
+		if len(runs) == 0 {
+			continue
+		}
+		if len(runs) > 1 {
+			reruns++
+		}
+		groups = append(groups, vf.List(runs))
+	}
+	e2e.mu.Unlock()
+	sort.Strings(groups)
+	exp := expected(d)
+	if d.Variant != "discard-f" {
+		for _, x := range outRows(d) {
+			exp = append(exp, inc{d.CD, x})
+		}
+	}
+	observed = "ok"
+	if oc.err != "" {
+		observed = oc.err
+	}
+	term = vf.App("CHist", vf.Bool(d.Exec == "bigmachine"), vf.Nat(reg), vf.List(groups), incsTerm(exp), vf.ZList(oc.vals))
+	return term, fmt.Sprintf("%s %d tasks %d re-run", observed, len(groups), reruns)
 }
 
 // ---------------------------------------------------------------- generators
@@ -836,7 +1003,8 @@ func main() {
 		Rule: "random op sequences (Incr/Value/Merge/Reset/Reset(nil)/gob encode/gob decode, direct and wrapped in a reply struct, " +
 			"hand-made payloads, near-overflow increments, a counter registered in mid-sequence in a few cases) over 2-4 scopes and a " +
 			"registry that grows during the run, plus slice programs with counting user functions on the local and bigmachine(testsystem) " +
-			"executors; non-trivial = an ops case with at least one Incr and one Merge/Reset/decode, or an end-to-end case with at least " +
+			"executors, and histories in which a result is discarded and its tasks run again (g(R) after R.Discard, f again after R.Discard, " +
+			"g(R) without discard as reference); non-trivial = an ops case with at least one Incr and one Merge/Reset/decode, or an end-to-end case with at least " +
 			"two counting tasks; distinct by case text",
 		Extra: map[string]interface{}{}}
 	if regSize() != 1 {
@@ -897,6 +1065,29 @@ func main() {
 				nl++
 			}
 		}
+		// histories with Discard and recomputation: every variant on every program
+		// stage2 can consume, twice on the local executor for once on bigmachine
+		if reg < 5 {
+			reg = 5
+		}
+		nhist := 27
+		if opts.Tier == "thorough" {
+			nhist = 270
+		}
+		nhist *= opts.Scale
+		variants := []string{"discard-gR", "gR", "discard-f"}
+		for i := 0; i < nhist; i++ {
+			ex := "local"
+			if i%3 == 2 {
+				ex = "bigmachine"
+			}
+			d := genE2E(root.Split(), reg, ex, histProgs[(i/9)%len(histProgs)])
+			d.Kind, d.Variant = "hist", variants[(i/3)%len(variants)]
+			// a fourth counter for stage2
+			for d.CD = 1; d.CD == d.CA || d.CD == d.CB || d.CD == d.CC; d.CD++ {
+			}
+			descs = append(descs, d)
+		}
 	}
 	maxReg, nlate, npanic, nincompat, nblind := 0, 0, 0, 0, 0
 	for _, d := range descs {
@@ -919,6 +1110,28 @@ func main() {
 			nincompat += kinds["incompatible"]
 			out.Add(vf.Case{Term: term, Desc: d, Sig: sig, Nontriv: nontriv, Kind: kind,
 				Observed: fmt.Sprintf("%d steps, %d panics, %d incompatible", nsteps, kinds["panic"], kinds["incompatible"])})
+		case "hist":
+			okProg := false
+			for _, p := range histProgs {
+				okProg = okProg || p == d.Prog
+			}
+			if !okProg || (d.Exec != "local" && d.Exec != "bigmachine") || d.NShard < 1 ||
+				d.CA < 1 || d.CB < 1 || d.CC < 1 || d.CD < 1 ||
+				(d.Variant != "gR" && d.Variant != "discard-gR" && d.Variant != "discard-f") {
+				continue
+			}
+			term, observed := runHist(d)
+			nontriv := ""
+			if strings.HasPrefix(observed, "ok") && !strings.Contains(observed, " 0 tasks") {
+				nontriv = vf.Hash(term)
+			}
+			sig := "metrics-hist-" + d.Exec
+			if d.Exec == "bigmachine" && d.Variant == "discard-gR" {
+				// (*worker).Run does not reset the worker-side task scope before a re-run
+				sig = "metrics-bigmachine-recompute-overcounts"
+			}
+			out.Add(vf.Case{Term: term, Desc: d, Sig: sig, Nontriv: nontriv,
+				Kind: fmt.Sprintf("hist %s %s prog=%d", d.Exec, d.Variant, d.Prog), Observed: observed})
 		case "e2e":
 			if d.Prog < 0 || d.Prog >= len(progs) || (d.Exec != "local" && d.Exec != "bigmachine") || d.NShard < 1 ||
 				d.CA < 1 || d.CB < 1 || d.CC < 1 {
